@@ -96,11 +96,11 @@ inductive HasType : Ctx → Expr → STy → Prop
   | int {Γ n} : HasType Γ (.int n) .int
   | str {Γ s} : HasType Γ (.str s) .str
   | var {Γ x τ} : lookupCtx Γ x = some τ → HasType Γ (.var x) τ
-  | lam {Γ xs body τs ρ τ} : τs.length = xs.length → HasType (bindCtx xs τs Γ) body ρ →
+  | lam {Γ xs body τs ρ τ} : xs ≠ [] → τs.length = xs.length → HasType (bindCtx xs τs Γ) body ρ →
       τ = funTy τs ρ → HasType Γ (.lam xs body) τ
   | app {Γ f args φ σs τ} : HasType Γ f φ → φ = funTy σs τ → HasTypes Γ args σs →
       HasType Γ (.app f args) τ
-  | let_ {Γ p e₁ e₂ σ Δ τ} : HasType Γ e₁ σ → PatType p σ Δ → HasType (Δ ++ Γ) e₂ τ →
+  | let_ {Γ p e₁ e₂ σ Δ τ} : HasType Γ e₁ σ → PatType D p σ Δ → HasType (Δ ++ Γ) e₂ τ →
       HasType Γ (.let_ p e₁ e₂) τ
   | letrec {Γ binds body τs τ} : HasGroup (recCtx binds τs Γ) binds τs →
       HasType (recCtx binds τs Γ) body τ → HasType Γ (.letrec binds body) τ
@@ -148,13 +148,16 @@ inductive HasShape : Val → STy → Prop
   | recd {vs τs} : HasShapes vs τs → HasShape (.data 0 vs) (.recd τs)
   | variant {d tag vs τs} : D d tag = some τs → HasShapes vs τs → HasShape (.data tag vs) (.named d)
   | arr {vs τ} : HasShapeAll vs τ → HasShape (.arr vs) (.arr τ)
-  | clos {params body env Γ τs ρ τ} : EnvOk env Γ → τs.length = params.length →
-      HasType D (bindCtx params τs Γ) body ρ → τ = funTy τs ρ → HasShape (.clos params body env) τ
-  | recclos {group idx env Γ τs τ} : EnvOk env Γ → HasGroup D (recCtx group τs Γ) group τs →
-      τs[idx]? = some τ → HasShape (.recclos group idx env) τ
-  | ctorfn {d tag arity τs τ} : D d tag = some τs → arity = τs.length → τ = funTy τs (.named d) →
-      HasShape (.ctorfn tag arity) τ
-  | pap {f args φ σs τ} : HasShape f φ → φ = funTy σs τ → HasShapes args σs → HasShape (.pap f args) τ
+  | clos {params body env Γ τs ρ a b} : EnvOk env Γ → τs.length = params.length →
+      HasType D (bindCtx params τs Γ) body ρ → STy.fn a b = funTy τs ρ →
+      HasShape (.clos params body env) (.fn a b)
+  | recclos {group idx env Γ τs a b} : EnvOk env Γ → HasGroup D (recCtx group τs Γ) group τs →
+      τs[idx]? = some (.fn a b) → HasShape (.recclos group idx env) (.fn a b)
+  | ctorfn {d tag arity τs a b} : D d tag = some τs → arity = τs.length →
+      STy.fn a b = funTy τs (.named d) → HasShape (.ctorfn tag arity) (.fn a b)
+  /-- a partial application still waits for at least one argument -/
+  | pap {f args φ σs a b} : HasShape f φ → φ = funTy σs (.fn a b) → HasShapes args σs →
+      HasShape (.pap f args) (.fn a b)
 inductive HasShapes : List Val → List STy → Prop
   | nil : HasShapes [] []
   | cons {v vs τ τs} : HasShape v τ → HasShapes vs τs → HasShapes (v :: vs) (τ :: τs)
